@@ -254,7 +254,7 @@ def random_text(r):
     if mode < 0.3:
         return "".join(chr(r.randint(0, 127)) for _ in range(n))
     if mode < 0.5:
-        return "".join(chr(r.choice([r.randint(0, 127), r.randint(128, 0x2FFF), r.randint(0x1F300, 0x1F6FF)])) for _ in range(n))
+        return "".join(chr(r.choice([r.randint(0, 127), r.randint(128, 0x2FFF), r.randint(0x1F300, 0x1F6FF), r.randint(0xD7F0, 0xE010)])) for _ in range(n))
     if mode < 0.8:
         return " ".join(r.choice(POOL) for _ in range(n // 2))
     return 'version: "3"\n' + " ".join(r.choice(POOL) for _ in range(n // 2))
@@ -435,6 +435,16 @@ def run(run):
                         break
                 if run.nviol:
                     break
+            # lone surrogates (what text decoded with errors="surrogateescape" / "surrogatepass" carries): a str like
+            # any other, but one that cannot be encoded as UTF-8
+            for sur in ("\ud800", "\udfff", "\udc80"):
+                for t in ['version: "3"\n// note %s\nstruct A { a @0: u8, }' % sur,
+                          'version: "3"\nstruct A { a @0: u8 | unit("%s"), }' % sur,
+                          'version: "3"\nstruct A { a @0: u8, } %s' % sur,
+                          'version: "3"\nstruct A%s { a @0: u8, }' % sur,
+                          'version: "3"\n/* %s */ impl p for A { k: "%s", }' % (sur, sur),
+                          sur, 'version: "%s"' % sur]:
+                    judge(run, "surrogate", string_parse(t), t)
             for t in ["", " ", "\n", "\x00", "﻿", "//", "/*", "/* */", "version", "version:", 'version: "3', 'version: "3"', 'version: "3"\n' * 3]:
                 judge(run, "tiny", string_parse(t), t)
         recursion_fault_sweep(run)
